@@ -9,6 +9,8 @@ CONSTANTS
   InitBals <- MCInitBals
   Amounts <- MCAmounts
   FaultKinds <- MCFaults
+  AdvChannels <- MCNone
+  ProofSound = TRUE
   RevKinds <- MCRevKinds
   NAdd <- MCAdd
   NSub <- MCSub
@@ -16,6 +18,6 @@ CONSTANTS
   NZero = 0
   MaxBal = 1
   UMax = 3
-INVARIANTS TypeOK CanClose LedgerShape Conservation HeldSigsValid TagSeparation IssuedMatchesLedger TokenOnlyAfterRevocation ClosedOnUnrevoked MerchantExposureBounded
+INVARIANTS TypeOK CanClose LedgerShape Conservation HeldSigsValid TagSeparation IssuedMatchesLedger TokenOnlyAfterRevocation ClosedOnUnrevoked MerchantExposureBounded NoDoubleSpend
 PROPERTIES RefusedIsInert ReleaseOnlyOnAccept RefusedStartInert TokenIffOpens RestoreStutters ReplayRefused FaultRefused HonestAccepted
 CHECK_DEADLOCK FALSE
